@@ -18,7 +18,7 @@ impl Monitor for C07 {
         true
     }
     fn gens(&self, tier: Tier) -> Vec<Gen> {
-        vec![gen("data-twins", tier.pick(12_000, 3_000_000, 8)), gen("bitflip-twins", tier.pick(300, 40_000, 1)), gen("join-twins", tier.pick(3_000, 500_000, 4))]
+        vec![gen("small-buffer-twins", tier.pick(270, 27_000, 0)), gen("data-twins", tier.pick(12_000, 3_000_000, 8)), gen("bitflip-twins", tier.pick(300, 40_000, 1)), gen("join-twins", tier.pick(3_000, 500_000, 4))]
     }
     fn rule(&self) -> String {
         "Two devices with identical configuration and RNG stream are driven in lock-step by the same history; twin B additionally receives frames the reference codec classifies as rejected (random bytes, bit flips of an authentic frame, authentic frame of another session, exact replay, stale counter, far-future counter, the device's own uplink reflected, JoinAccept while joined / under a wrong key / corrupted, oversized frames) at receive opportunities where twin A hears nothing (RX1, RX2, Class C gaps). Histories first create state to lose (pending sticky answers, owed ACK, ADR counter, near-wrap counters). Every radio request and response of the two twins is compared to the end of the history. bitflip-twins: every single-bit flip of one authentic frame. Class = (front-end, region, what-was-pending, rejected-frame class, insertion point).".into()
@@ -42,6 +42,14 @@ impl Monitor for C07 {
     fn run_case(&self, g: &str, idx: u64, rng: &mut Prng, col: &mut Collector) {
         let front = FRONTS[(idx % 3) as usize];
         let reg = regions::ALL[((idx / 3) % 9) as usize];
+        if g == "small-buffer-twins" {
+            match (idx / 27) % 3 {
+                0 => small_buffer_twins::<32>(reg, rng, col),
+                1 => small_buffer_twins::<64>(reg, rng, col),
+                _ => small_buffer_twins::<100>(reg, rng, col),
+            }
+            return;
+        }
         match g {
             "data-twins" => {
                 let _ = data_twins(front, reg, None, rng, col);
@@ -273,6 +281,9 @@ fn data_twins(front: Front, reg: Reg, flip_bit: Option<usize>, rng: &mut Prng, c
             RK::Replay if adr_mode => net.downlink(&Down { fcnt: start_down.unwrap_or(0), port: Some(4), payload: &[4], confirmed: rng.bool(), ..Default::default() }),
             RK::Stale if adr_mode => net.downlink(&Down { fcnt: start_down.unwrap_or(0).saturating_sub(1 + rng.below(3) as u32), port: Some(4), payload: &[4], ..Default::default() }),
             RK::Replay => last_good.clone().unwrap_or_else(|| auth.clone()),
+            // (past the first 16-bit epoch, every other stale frame is one of the previous epoch whose wire
+            // counter lies *ahead* of the current one's lower half: fresh to anyone who forgot the upper half)
+            RK::Stale if n_auth >= 0x1_0000 && rng.bool() => net.downlink(&Down { fcnt: n_auth - 0x1_0000 + 1 + rng.below(16_000) as u32, port: Some(4), payload: &[4], confirmed: true, ..Default::default() }),
             RK::Stale => net.downlink(&Down { fcnt: n_auth.saturating_sub(1 + rng.below(3) as u32), port: Some(4), payload: &[4], confirmed: true, ..Default::default() }),
             RK::ExactMaxBadMic => {
                 // MACPayload = 7 (FHDR) + 1 (FPort) + 51 = 59 bytes, the RX2 limit in these plans
@@ -653,4 +664,105 @@ fn join_twins(front: Front, reg: Reg, rng: &mut Prng, col: &mut Collector) {
         }
     }
     col.eval(&format!("join|{}|{}|{:?}", front.name(), reg.name(), kinds));
+}
+
+
+/// State-machine twins built with a small radio buffer (const generic N): twin B additionally hears frames
+/// that are longer than the buffer (noise, or frames of another session) but within the window's size
+/// limit - frames it cannot accept. Whatever it answers to them itself, everything else (the authentic
+/// downlink that follows in the same or the next window, every later uplink and radio request) is the same
+/// as for twin A.
+fn small_buffer_twins<const N: usize>(reg: crate::regions::Reg, rng: &mut Prng, col: &mut Collector) {
+    let seed = rng.next_u64();
+    let mut a: SmallNb<N> = SmallNb::new(reg, &mut Prng::new(seed));
+    let mut b: SmallNb<N> = SmallNb::new(reg, &mut Prng::new(seed));
+    let drs = crate::c12::uplink_drs(reg);
+    let dr = *drs.iter().max().unwrap();
+    a.dev.set_datarate(lorawan_device::region::DR::from(dr));
+    b.dev.set_datarate(lorawan_device::region::DR::from(dr));
+    let other = Net { nwk: rng.arr(), app: rng.arr(), addr: a.net.addr };
+    let n = rng.range(4, 9);
+    let mut fdown = 0u32;
+    let mut trace: Vec<String> = vec![];
+    for i in 0..n {
+        let mut sa = Script::silent();
+        let mut sb = Script::silent();
+        let len = N + 1 + rng.below(20) as usize;
+        let long: Vec<u8> = if rng.bool() {
+            let mut v = rng.bytes(len);
+            v[0] = 0x60;
+            v
+        } else {
+            let payload = vec![0x33; len - 13];
+            other.downlink(&Down { fcnt: fdown + 1, port: Some(9), payload: &payload, ..Default::default() })
+        };
+        let what = rng.below(4);
+        // an authentic downlink both twins hear (half of the time)
+        let auth = if rng.bool() {
+            fdown += 1;
+            Some(a.net.downlink(&Down { fcnt: fdown, port: Some(5), payload: &[i as u8], confirmed: rng.bool(), ..Default::default() }))
+        } else {
+            None
+        };
+        match what {
+            0 => {
+                // long frame in RX1, authentic one behind it in the same window
+                sb.rx1.push(long.clone());
+                if let Some(f) = &auth {
+                    sa.rx1.push(f.clone());
+                    sb.rx1.push(f.clone());
+                }
+            }
+            1 => {
+                // long frame in RX1, authentic one in RX2
+                sb.rx1.push(long.clone());
+                if let Some(f) = &auth {
+                    sa.rx2.push(f.clone());
+                    sb.rx2.push(f.clone());
+                }
+            }
+            2 => {
+                sb.rx2.push(long.clone());
+                if let Some(f) = &auth {
+                    sa.rx2.push(f.clone());
+                    sb.rx2.push(f.clone());
+                }
+            }
+            _ => {
+                if let Some(f) = &auth {
+                    sa.rx1.push(f.clone());
+                    sb.rx1.push(f.clone());
+                }
+            }
+        }
+        if what < 3 {
+            col.event("rejected_frames_longer_than_buffer");
+        }
+        let (ea, eb) = (a.ev_len(), b.ev_len());
+        let data = rng.bytes_below(4);
+        let confirmed = rng.chance(1, 4);
+        let ra = a.transact(Action::Send { data: &data, port: 3, confirmed }, &sa);
+        let rb = b.transact(Action::Send { data: &data, port: 3, confirmed }, &sb);
+        trace.push(format!("{}{}:{}/{}", ["long-then-auth-rx1", "long-rx1", "long-rx2", "plain"][what as usize], if auth.is_some() { "+auth" } else { "" }, ra.kind(), rb.kind()));
+        for (r, who) in [(&ra, "A"), (&rb, "B")] {
+            if let Resp::Panic(m, l) = r {
+                col.violation(&format!("C07|panic|small-buffer|{}", short_loc(l)), "device panicked", json!({"twin": who, "msg": m, "loc": l, "buffer": N, "trace": trace}));
+                return;
+            }
+        }
+        let xa: Vec<String> = a.evs_since(ea).iter().map(|e| format!("{:?}", e)).collect();
+        let xb: Vec<String> = b.evs_since(eb).iter().map(|e| format!("{:?}", e)).collect();
+        let same_resp = format!("{:?}", ra) == format!("{:?}", rb);
+        if !same_resp || xa != xb {
+            let first = xa.iter().zip(xb.iter()).position(|(x, y)| x != y).unwrap_or(xa.len().min(xb.len()));
+            col.violation(
+                &format!("C07|twins-diverge|small-buffer|buf={}|{}|{}", N, ["long-then-auth-rx1", "long-rx1", "long-rx2", "plain"][what as usize], if !same_resp { "response" } else { "radio-events" }),
+                "twin B (which additionally heard frames longer than its radio buffer) behaves differently from twin A",
+                json!({"region": reg.name(), "buffer": N, "step": i, "trace": trace, "response_a": format!("{:?}", ra), "response_b": format!("{:?}", rb), "first_differing_event": first, "a": xa.get(first), "b": xb.get(first)}),
+            );
+            return;
+        }
+    }
+    col.event("small_buffer_twin_histories");
+    col.eval(&format!("small-buffer-twins|{}|buf={}|{}", reg.name(), N, trace.iter().map(|t| t.split(':').next().unwrap_or("")).collect::<Vec<_>>().join(",")));
 }
